@@ -45,10 +45,20 @@ def R():
     return registry()
 
 
-def probe_query(Qx, probe):
+class _Start:
+    """Stands in for a Query class in probe_query: the statement starts from the table's own shortcut (t.select())."""
+
+    def __init__(self, Qx, t):
+        self.Qx, self.t = Qx, t
+
+    def from_(self, t):
+        return self.t.select()
+
+
+def probe_query(Qx, probe, t=None):
     """Innermost query over table tprobe carrying the probe."""
     r = R()
-    t = r["Table"]("tprobe")
+    t = t if t is not None else r["Table"]("tprobe")
     if probe == "identifier":
         return Qx.from_(t).select(t.pcol.as_("pal"))
     if probe == "placeholder":
@@ -118,6 +128,12 @@ def cases(tier, seed, shard, nshards):
                         k += 1
                         if k % nshards == shard:
                             yield {"k": "probe", "d": d, "probe": probe, "chain": chain, "cls": cls, "mode": mode}
+    for d in DIALECT_CLASSES:
+        for probe in PROBES:
+            for maker in ("Table", "Tables-name", "Tables-pair", "Tables-many", "Table-query_cls"):
+                k += 1
+                if k % nshards == shard:
+                    yield {"k": "shortcut", "d": d, "probe": probe, "maker": maker}
     # convention-sensitive leaves inside every operand slot of every term class (term-level nesting)
     from ..zoo import zoo
     for d in DIALECT_CLASSES:
@@ -581,7 +597,44 @@ def run_term(case, mon):
     mon.nontrivial(case)
 
 
+def run_shortcut(case, mon):
+    """Tables made by the dialect class's factories carry the class: a statement started from the table's shortcut follows the same
+    conventions as one started from the class."""
+    r = R()
+    d, probe = case["d"], case["probe"]
+    Q = r[d]
+    fam = DIALECT_OF[d] if d != "Query" else "generic"
+    makers = {"Table": lambda: Q.Table("tprobe"), "Tables-name": lambda: Q.Tables("tprobe")[0], "Tables-pair": lambda: Q.Tables(("tprobe", "ta"))[0],
+              "Tables-many": lambda: Q.Tables("x1", ("tprobe", "ta"), "x2")[1], "Table-query_cls": lambda: r["Table"]("tprobe", alias="ta", query_cls=Q)}
+    try:
+        t_fact = makers[case["maker"]]()
+        t_ref = r["Table"]("tprobe", alias=t_fact.alias)
+        a = probe_query(_Start(Q, t_fact), probe, t_fact)
+        b = probe_query(Q, probe, t_ref)
+    except Exception as e:
+        mon.count("unbuildable")
+        mon.add("unbuildable", "shortcut:%s:%s" % (probe, type(e).__name__))
+        return
+    mon.count("shortcut_statements")
+    for mode in ("str", "param"):
+        try:
+            if mode == "param" and not isinstance(a, r["QueryBuilder"]):
+                continue  # (set operations have no get_parameterized_sql of their own)
+            sa = str(a) if mode == "str" else repr(a.get_parameterized_sql())
+            sb = b.get_sql(contexts()[d]) if mode == "str" else repr(b.get_parameterized_sql(contexts()[d]))
+        except Exception as e:
+            mon.violation("shortcut:raises:%s:%s" % (type(e).__name__, fam), "%s via %s raised %r" % (probe, case["maker"], e))
+            return
+        if sa != sb:
+            mon.violation("shortcut-loses-dialect:%s:%s:%s" % (case["maker"], probe, fam), "%s: a statement started from %s(..).select() renders %r, started from %s.from_() %r" % (
+                d, case["maker"], sa[:220], d, sb[:220]))
+            return
+    mon.nontrivial(case)
+
+
 def run_case(case, mon):
+    if case["k"] == "shortcut":
+        return run_shortcut(case, mon)
     {"probe": run_probe, "neutral": run_neutral, "hook": run_hook, "term": run_term}[case["k"]](case, mon)
 
 
